@@ -323,6 +323,9 @@ def _pad(repo, col):
     from . import c10
     from sa.spaces import Classifier
     cl = idx.compute_slots(repo, col, "R-C05-pad", emit=())
+    # a trainable value that is scattered into the wrong row receives the gradient of another compartment / synapse
+    c10.scatter_sites(repo, col, cl, "R-C05-scatter", "R-C05-pad")
+    col.rule("R-C05-scatter", "trainable values are scattered in the index space of the array they override", 2)
     n = 0
     for name in ("get_all_parameters", "get_all_states"):
         fi = repo.method("Module", name)
